@@ -3,11 +3,13 @@
 import json
 import math
 import os
+import subprocess
+import sys
 import warnings
 
 import numpy as np
 
-from common import VERIF, canonical, dec_float, enc_float, enc_list, errname
+from common import REPO, VERIF, canonical, clean, dec_float, enc_float, enc_list, errname
 
 PROP = "C12"
 THEOREMS = [
@@ -41,7 +43,15 @@ RULE = (
     "of its offset model for the offsets -1 and +0.05 with the smallest force 0.05 pN among the requested points, and "
     "of the sum of every ordered pair of solver-free distance models; sessions of two DNA convenience models, every "
     "ordered pair of the four public names, for different and for equal temperatures, both observed after the second "
-    "one was built) + seeded random cases: (a) calc_cubic_root on coefficient triples built from "
+    "one was built; sessions of queries to ONE model object and ONE float64 buffer for every constructor at the default "
+    "parameters: the buffer asked for, overwritten in place with other valid inputs of the same length and asked for "
+    "again, asked for in consecutive slices, a new array / a Python list of values, a second parameter set (one "
+    "parameter moved by 1-5%) and back, a second model object of the same constructor; a shorter session for the offset "
+    "model of every constructor and for Model.invert() with and without interpolation of every solver-free one) "
+    "+ seeded random cases: (s) sessions as above with 3-8 queries of random kind and order on vectors of 4-24 "
+    "valid inputs (4-10 through SciPy), parameters from the property's box, for a constructor, its offset model, the "
+    "constructor plus an offset model, or its generic inverse; EVERY answer of a session is compared with the model "
+    "and judged by the oracle at the content the buffer had for that query; (a) calc_cubic_root on coefficient triples built from "
     "prescribed roots (three real roots, one real root, double roots perturbed to both sides of det = 0, over 12 "
     "decades of scale) and on the coefficient triples of the four cubic-based models, all three selected roots; "
     "(b) 'chain' cases: a random model expression (depth <= 3: base constructors, +, offset, invert with and "
@@ -85,6 +95,12 @@ ASSUMPTIONS = [
     "the spline variant of Model.invert() uses a fixed knot spacing of 0.01 in the parent's independent variable; when a "
     "force model is inverted (knots in um) it is only generated for data spanning >= 1 um (>= 100 knots): coarser grids "
     "are inaccurate by construction (seen: 1.3e-3 relative with 8 knots) and say nothing about the property",
+    "for the same reason sessions (vectors of 4-10 values; the spline is only used for more than 3 values strictly inside "
+    "the data range) hand a force model to the spline variant only when its force changes by at most 25% from one knot "
+    "to the next at every generated point: close to the contour length of a short tether the 0.01 um grid is too coarse "
+    "(seen: invert(wlc_marko_siggia_force, interpolate=True), Lc ~ 2 um, answers 1.9478 um for 61.0 pN, where the model "
+    "gives 53.5 pN: 12% in force, 4e-4 um in distance; error of a cubic spline ~ 0.085 r^4 (Lc - x), r = relative "
+    "force step between knots); such data is inverted by least squares instead",
     "Model.invert() starts SciPy from the hard-coded guess 1.0 clipped into the limits (repair of F19); a clipped guess "
     "that lands ON the lower limit of a distance model whose equation is singular there (x - offset = 0 for "
     "Odijk/eFJC/tWLC) silently returns that limit (seen: ewlc_odijk_distance, f_offset = 1.357, independent_min = "
@@ -92,6 +108,9 @@ ASSUMPTIONS = [
     "this is not judged: when the moved lower limit of a force would be >= 1 the generator uses offset + 0.04 pN",
     "slopes of an inverted expression are estimated with a central difference of relative step 1e-4 of |x| + |offset| "
     "(the wrapped model of an offset model is evaluated at x - offset)",
+    "a model evaluates an equation, so what it answers to a query is determined by the values and parameters of THAT "
+    "query: sessions judge each answer on its own, whatever the same process, model object or array was used for before "
+    "(this is what 'distance(force(d)) = d for all inputs' says for the second and later calls as much as for the first)",
     "validity limits used for '80% of the validity limit': St (Odijk, eMS, eFJC), f_max = (-g0 + sqrt(St C))/g1 "
     "(tWLC, from twlc_solve_force), 100 pN for the inextensible Marko-Siggia pair (d < Lc always)",
 ]
@@ -400,6 +419,82 @@ def fd_steps(e, params, x0):
     return [FD * (abs(v) + s) for v in x0]
 
 
+def session_trace(case):
+    """the queries of a session, replayed on plain Python lists: one (parameters, content, what) per step.
+    The buffer starts as vecs[0]; `set j` overwrites it IN PLACE with vecs[j] (same object, same shape, new content),
+    `eval` asks again, `fresh j` / `list j` hand over a new array / a Python list with the content of vecs[j],
+    `blocks k` asks for the buffer in consecutive slices of k points (short-lived views) and concatenates the answers,
+    `params w` switches to the first / second parameter set and asks for the buffer, `other` asks a second,
+    separately built model object of the same expression for the buffer."""
+    vecs, psets = case["vecs"], [case["params"], case.get("params2") or case["params"]]
+    buf, P, out = list(vecs[0]), psets[0], []
+    for st in case["steps"]:
+        what = st[0]
+        if what == "set":
+            buf = list(vecs[st[1]])
+            out.append((P, list(buf), what))
+        elif what in ("fresh", "list"):
+            out.append((P, list(vecs[st[1]]), what))
+        elif what == "params":
+            P = psets[st[1]]
+            out.append((P, list(buf), what))
+        elif what in ("eval", "blocks", "other"):
+            out.append((P, list(buf), what))
+        else:
+            raise ValueError(what)
+    return out
+
+
+def run_isolated(case):
+    """the case evaluated in a fresh interpreter.  What a session answers may depend on what the process was asked
+    BEFORE the session (that is the defect sessions look for); while a failing session is shrunk, every candidate is
+    therefore judged on its own, so that the replay file fails when it is run alone"""
+    code = ("import sys, json; sys.path[:0] = [%r, %r]; import c12; "
+            "print(json.dumps(c12.run_case(json.load(sys.stdin))))" % (os.path.dirname(os.path.abspath(__file__)), REPO))
+    pr = subprocess.run([sys.executable, "-c", code], input=json.dumps(clean(case)), capture_output=True, text=True,
+                        timeout=900)
+    if pr.returncode != 0:
+        raise RuntimeError("isolated evaluation failed: " + pr.stderr[-300:])
+    ans, ops_ = json.loads(pr.stdout.strip().splitlines()[-1])
+    return ans, ops_
+
+
+def run_session(case):
+    """ONE model object, ONE float64 buffer, a sequence of queries: every answer is an observable (a model evaluates an
+    equation: what it answers must not depend on what it was asked before)"""
+    e = case["expr"]
+    trace = session_trace(case)
+    ops = [eval_op(e, P, xs) for P, xs, _ in trace]
+    try:
+        m = build(e)
+        m_other = build(e) if any(st[0] == "other" for st in case["steps"]) else None
+    except Exception as ex:  # noqa: BLE001
+        return [errname(ex)] * len(ops), ops
+    vecs = case["vecs"]
+    buf = np.array(vecs[0], dtype=np.float64)
+    ans = []
+    for st, (P, _, what) in zip(case["steps"], trace):
+        if what == "set":
+            buf[:] = vecs[st[1]]
+            r = call(m, buf, P)
+        elif what == "fresh":
+            r = call(m, np.array(vecs[st[1]], dtype=np.float64), P)
+        elif what == "list":
+            r = call(m, [float(v) for v in vecs[st[1]]], P)
+        elif what == "blocks":
+            parts = []
+            for s0 in range(0, len(buf), st[1]):
+                parts.append(call(m, buf[s0:s0 + st[1]], P))
+            bad = [q for q in parts if isinstance(q, str)]
+            r = bad[0] if bad else (np.hstack(parts) if parts else np.zeros(0))
+        elif what == "other":
+            r = call(m_other, buf, P)
+        else:  # eval, params
+            r = call(m, buf, P)
+        ans.append(show(r))
+    return ans, ops
+
+
 def run_case(case):
     """returns (answers, ops): the implementation's observables and the protocol lines asking the model the
     same questions (ops may quote earlier answers of the implementation: round trips run on ITS values)"""
@@ -460,6 +555,8 @@ def run_case(case):
                     ans += a
                     ops += o
             return ans, ops
+        if op == "session":
+            return run_session(case)
         if op == "chain":
             e, params, xs = case["expr"], case["params"], case["xs"]
             x_arg = np.array(xs, dtype=float) if not case.get("ndim2") else np.array([xs, xs], dtype=float)
@@ -514,7 +611,7 @@ def _key(case):
 
 
 def impl(case):
-    ans, ops_ = run_case(case)
+    ans, ops_ = run_isolated(case) if case.get("_isolated") else run_case(case)
     _STASH[_key(case)] = ops_
     return ans
 
@@ -667,6 +764,8 @@ def oracle(case, ia):
         return None
     if op == "chain":
         return oracle_chain(case, ia)
+    if op == "session":
+        return oracle_session(case, ia)
     return None
 
 
@@ -730,6 +829,131 @@ def guess_outside(e):
         lo, hi = fl(e[2]), fl(e[3])
         return guess_outside(e[1]) or (lo < hi and not (lo <= 1.0 <= hi))
     return any(guess_outside(x) for x in e[1:] if isinstance(x, list))
+
+
+def published_clause(kind, a, xs, got):
+    """does every point (x, model(x)) of base constructor `kind` with argument list `a` lie on the published curve?
+    explicit formulas to 1e-9, closed-form inverses to TOL_CLOSED, SciPy inverses to the solver's stopping rule"""
+    for x, g in zip(xs, got):
+        if not math.isfinite(g):
+            return f"published-equation: {kind}({x}) = {g} inside the validity range"
+        if kind == "ewlc_odijk_distance":
+            exp, sc = P_odijk_d(x, *a), a[1]
+        elif kind == "efjc_distance":
+            exp, sc = P_efjc_d(x, *a), a[1]
+        elif kind == "twlc_distance":
+            exp, sc = P_twlc_d(x, *a), a[1]
+        elif kind == "wlc_marko_siggia_force":
+            exp = P_ms_f(x, *a)
+            sc = a[2] / a[0] * (0.25 / (1 - x / a[1]) ** 2)
+        else:
+            exp = None
+        if exp is not None and abs(g - exp) > TOL_EXPLICIT * max(abs(exp), abs(sc)):
+            return f"published-equation: {kind}({x}) = {g}, the published closed form gives {exp}"
+        if kind == "ewlc_odijk_force":
+            back = P_odijk_d(g, *a) if g > 0 else float("nan")
+            if not abs(back - x) <= TOL_CLOSED * a[1]:
+                return f"published-equation: ewlc_odijk_force({x}) = {g} but Odijk's equation gives d({g}) = {back}"
+        if kind == "wlc_marko_siggia_distance":
+            back = P_ms_f(g, *a) if g < a[1] else float("nan")
+            if not abs(back - x) <= TOL_CLOSED * max(abs(x), 1e-3) * max(1.0, a[1] / (a[1] - g)):
+                return f"published-equation: wlc_marko_siggia_distance({x}) = {g} but Marko-Siggia gives F({g}) = {back}"
+        if kind in ("ewlc_marko_siggia_force", "ewlc_marko_siggia_distance"):
+            F, d = (g, x) if kind.endswith("force") else (x, g)
+            y = 1.0 - d / a[1] + F / a[2]
+            res = P_ems_residual(F, d, *a)
+            sc = 0.25 / (y * y) + abs(F) * a[0] / a[3] + 1.0
+            # a relative error eps of the returned root moves the residual by at most ~ (2/y) eps * scale
+            if not (y > 0 and abs(res) <= TOL_CLOSED * sc * max(1.0, 1.0 / y)):
+                return (f"published-equation: {kind}({x}) = {g} violates the extensible Marko-Siggia relation: "
+                        f"residual {res:.3e} (terms ~ {sc:.3e})")
+    if kind in SOLVER_KINDS:
+        return solver_clause(kind, a, xs, got)
+    return None
+
+
+def solver_clause(kind, a, xs, got):
+    """efjc_force / twlc_force: the returned force is the one at which the published distance equation yields the
+    requested distance, to the stopping rule of the SciPy inversion (see ASSUMPTIONS); plain Python, equation only"""
+    fwd = (lambda F: P_twlc_d(F, *a)) if kind == "twlc_force" else (lambda F: P_efjc_d(F, *a))
+    interp = kind == "twlc_force"
+    lo, hi = 0.0, (twlc_fmax(a[2], a[3], a[4], a[5]) if interp else float("inf"))
+    for x, F in zip(xs, got):
+        if not (math.isfinite(F) and lo < F < hi):
+            return f"published-equation: {kind}({x}) = {F} is outside the validity range ({lo}, {hi}) of the equation"
+        slope = abs(fwd(F * (1 + FD)) - fwd(F * (1 - FD))) / (2 * FD * abs(F))
+        if not math.isfinite(slope) or slope == 0:
+            continue
+        room = max(1e-3, min(1.0, abs(F - lo), abs(hi - F)))
+        tol_F = 1e-6 * abs(F) + 1e-7 / (slope * slope * room)
+        if interp:
+            tol_F += (5e-3 if abs(F) < 0.2 else 2e-4) * abs(F)
+        back = fwd(F)
+        if abs(back - x) > slope * tol_F * 1.01 + 1e-12 * abs(x):
+            return (f"published-equation: {kind}({x}) = {F} but the published distance equation gives d({F}) = {back}: "
+                    f"residual {back - x:.3e} exceeds the solver precision {slope * tol_F:.2e}")
+    return None
+
+
+def plain_forward(kind, a, x):
+    """value of solver-free base constructor `kind` at x by its published relation (explicit, or bisection on it)"""
+    return plain_eval_base(["b", kind, "m"], {("kT" if n == "kT" else f"m/{n}"): v for n, v in zip(KINDS[kind][1], a)}, [x])[0]
+
+
+def inverse_clause(kind, a, lo, hi, interp, ys, got):
+    """Model.invert() of solver-free base constructor `kind`: the published relation of `kind` maps the returned value
+    back onto the requested one, to the stopping rule of the SciPy inversion (see ASSUMPTIONS)"""
+    for y, x in zip(ys, got):
+        if not math.isfinite(x):
+            return f"inverse-round-trip: invert({kind})({y}) = {x}"
+        h = FD * abs(x)
+        bk, up, dn = (plain_forward(kind, a, v) for v in (x, x + h, x - h))
+        slope = abs(up - dn) / (2 * h) if h != 0 else float("inf")
+        if not math.isfinite(slope) or slope == 0 or not math.isfinite(bk):
+            continue
+        room = max(1e-3, min(1.0, abs(x - lo), abs(hi - x)))
+        tol_x = 1e-6 * abs(x) + 1e-7 / (slope * slope * room)
+        if interp:
+            tol_x += (5e-3 if abs(x) < 0.2 else 2e-4) * abs(x)
+        noise = NOISE_CUBIC * abs(y) if kind in CUBIC_KINDS else 0.0
+        if abs(bk - y) > slope * tol_x * 1.01 + 1e-12 * abs(y) + noise:
+            return (f"inverse-round-trip: invert({kind})({y}) = {x} but the published relation gives {kind}({x}) = {bk}: "
+                    f"residual {bk - y:.3e} exceeds the solver precision {slope * tol_x:.3e}")
+    return None
+
+
+def oracle_session(case, ia):
+    """every answer of the session, judged on its own against the published equation at the content the model was
+    handed for THAT query (base constructor; its offset model: equation at x - offset; plus an offset model: equation
+    + offset; its generic inverse: equation maps the answer back)"""
+    e = case["expr"]
+    trace = session_trace(case)
+    t = e[0]
+    for k, ((P, xs, what), s) in enumerate(zip(trace, ia)):
+        got = dec_vals(s)
+        if got is None:
+            r = f"evaluation: valid input raised {s[:60]}"
+        elif len(got) != len(xs):
+            r = f"shape: {len(xs)} points in, {len(got)} out"
+        elif t == "b":
+            r = published_clause(base_kind(e), args_of(e, P), xs, got)
+        elif t == "off":
+            o = P[p_offset_name(e[1])]
+            r = published_clause(base_kind(e[1]), args_of(e[1], P), [x - o for x in xs], got)
+        elif t == "add":
+            c = P[p_names(e[2])[0]]
+            r = published_clause(base_kind(e[1]), args_of(e[1], P), xs, [g - c for g in got])
+        elif t == "inv":
+            r = inverse_clause(base_kind(e[1]), args_of(e[1], P), fl(e[2]), fl(e[3]), bool(e[4]), xs, got)
+        else:
+            r = None
+        if r:
+            same = [j for j in range(k) if ia[j] == s and trace[j][1] != xs]
+            stale = f"; the answer is identical to that of query {same[-1]}, which asked for different values" if same else ""
+            head, _, rest = r.partition(":")
+            return (f"{head}: query {k} of a session on one model object ({what}; {k} queries answered before)"
+                    f"{stale}:{rest}")
+    return None
 
 
 def oracle_chain(case, ia):
@@ -796,39 +1020,9 @@ def oracle_chain(case, ia):
     if not valid:
         return None
     # (1) the published equation
-    for x, g in zip(xs, got):
-        if not math.isfinite(g):
-            return f"published-equation: {kind}({x}) = {g} inside the validity range"
-        if kind == "ewlc_odijk_distance":
-            exp, sc = P_odijk_d(x, *a), a[1]
-        elif kind == "efjc_distance":
-            exp, sc = P_efjc_d(x, *a), a[1]
-        elif kind == "twlc_distance":
-            exp, sc = P_twlc_d(x, *a), a[1]
-        elif kind == "wlc_marko_siggia_force":
-            exp = P_ms_f(x, *a)
-            sc = a[2] / a[0] * (0.25 / (1 - x / a[1]) ** 2)
-        else:
-            exp = None
-        if exp is not None and abs(g - exp) > TOL_EXPLICIT * max(abs(exp), abs(sc)):
-            return f"published-equation: {kind}({x}) = {g}, the published closed form gives {exp}"
-        if kind == "ewlc_odijk_force":
-            back = P_odijk_d(g, *a) if g > 0 else float("nan")
-            if not abs(back - x) <= TOL_CLOSED * a[1]:
-                return f"published-equation: ewlc_odijk_force({x}) = {g} but Odijk's equation gives d({g}) = {back}"
-        if kind == "wlc_marko_siggia_distance":
-            back = P_ms_f(g, *a) if g < a[1] else float("nan")
-            if not abs(back - x) <= TOL_CLOSED * max(abs(x), 1e-3) * max(1.0, a[1] / (a[1] - g)):
-                return f"published-equation: wlc_marko_siggia_distance({x}) = {g} but Marko-Siggia gives F({g}) = {back}"
-        if kind in ("ewlc_marko_siggia_force", "ewlc_marko_siggia_distance"):
-            F, d = (g, x) if kind.endswith("force") else (x, g)
-            y = 1.0 - d / a[1] + F / a[2]
-            res = P_ems_residual(F, d, *a)
-            sc = 0.25 / (y * y) + abs(F) * a[0] / a[3] + 1.0
-            # a relative error eps of the returned root moves the residual by at most ~ (2/y) eps * scale
-            if not (y > 0 and abs(res) <= TOL_CLOSED * sc * max(1.0, 1.0 / y)):
-                return (f"published-equation: {kind}({x}) = {g} violates the extensible Marko-Siggia relation: "
-                        f"residual {res:.3e} (terms ~ {sc:.3e})")
+    r = published_clause(kind, a, xs, got)
+    if r:
+        return r
     # (2) the round trip through the partner model, on the implementation's answers
     back = dec_vals(ia[1]) if len(ia) > 1 else None
     if back is None:
@@ -881,6 +1075,9 @@ def nontrivial(case, ia):
 
 def tags(case, r):
     t = {"op": case["op"]}
+    if case["op"] == "session":
+        # a failure of the very first query can only come from what the process was asked before the session
+        t["session_first_query"] = " query 0 of a session" in (r.get("clause") or "")
     if case["op"] == "chain":
         t["root"] = case["expr"][0]
         exp_err = expected_error(case)
@@ -905,6 +1102,18 @@ def shrink(case):
                     c = dict(case)
                     c["expr"] = sub
                     yield c
+    if case["op"] == "session":
+        # every candidate is evaluated in a fresh interpreter (see run_isolated), first of all the session itself
+        if not case.get("_isolated"):
+            yield dict(case, _isolated=True)
+        st = case["steps"]
+        if len(st) > 1:
+            for i in range(len(st)):
+                yield dict(case, steps=st[:i] + st[i + 1:], _isolated=True)
+        n = len(case["vecs"][0])
+        if n > 1:
+            for sl in (slice(0, (n + 1) // 2), slice(n // 2, n)):
+                yield dict(case, vecs=[v[sl] for v in case["vecs"]], _isolated=True)
     if case["op"] == "dnaseq":
         st = case["steps"]
         if len(st) > 1:
@@ -1246,6 +1455,10 @@ def plain_eval_base(e, params, xs):
         elif kind == "ewlc_marko_siggia_force":
             Lp, Lc, St, kT = a
             out.append(bisect_plain(lambda F: -P_ems_residual(F, x, *a), 1e-9, 1e5, 0.0))
+        elif kind == "efjc_force":
+            out.append(bisect_plain(lambda F: P_efjc_d(F, *a), 1e-9, 1e5, x))
+        elif kind == "twlc_force":
+            out.append(bisect_plain(lambda F: P_twlc_d(F, *a), 1e-9, 0.999 * twlc_fmax(a[2], a[3], a[4], a[5]), x))
         else:
             out.append(float("nan"))
     return out
@@ -1290,7 +1503,7 @@ def off_names(e):
 
 
 def inversion_case(sub, k, shape, interp, stream, default_only=False, shifts=None, k2=None, n=None, include_low=False,
-                   **kw):
+                   info=None, **kw):
     """Model.invert() of a solver-free increasing expression around constructor k: the constructor itself, plus an
     offset model, wrapped in subtract_independent_offset (once, twice, inside or outside a composite), or the sum of
     two distance models.  The requested values are the ones the published relations assign to inputs of the property's
@@ -1346,13 +1559,191 @@ def inversion_case(sub, k, shape, interp, stream, default_only=False, shifts=Non
         # Model.invert() starts SciPy from the hard-coded guess 1.0 clipped into the limits: with a lower limit >= 1 it
         # would start ON the limit, and at x - o = 0 the distance models are singular (see ASSUMPTIONS)
         lo2 = o + 0.04
+    if info is not None:
+        info.update(xs_in=list(xs_in), unit=unit)
     return chain_case(["inv", inner, lo2, hi2, interp], p, ys, stream, True, **kw)
+
+
+# ------------------------------------------------------------------ sessions: many queries to one model object
+
+SESSION_SHAPES = [("b", 0.6), ("off", 0.15), ("add", 0.1), ("inv", 0.15)]
+SESSION_KINDS = [k for k in sorted(KINDS) if not k.endswith("offset")]
+SPLINE_DX = 0.01  # knot spacing of invert_function_interpolation, in the parent's independent variable
+
+
+def in_box(kind, a, us):
+    """do the inputs `us` of base constructor `kind` (argument list a) lie in the property's range: forces, or the forces
+    the published relation assigns to the distances, within 0.05 pN .. 80% of the validity limit?"""
+    lim = 0.8 * validity_limit(kind, a)
+    if KINDS[kind][2] == "f":
+        return all(0.05 <= u <= lim for u in us)
+    e = ["b", kind, "m"]
+    P = {("kT" if n == "kT" else f"m/{n}"): v for n, v in zip(KINDS[kind][1], a)}
+    if kind.startswith("wlc") and not all(u < a[1] * (1 - 1e-6) for u in us):
+        return False
+    try:
+        Fs = plain_eval_base(e, P, us)
+    except (ValueError, ZeroDivisionError, OverflowError):
+        return False
+    return all(math.isfinite(F) and 0.05 <= F <= lim for F in Fs)
+
+
+def session_script(sub, n, nv, two_params, length):
+    """a random sequence of queries; the buffer is overwritten in place at least once after it was asked for"""
+    menu = [("set", 0.3), ("eval", 0.1), ("blocks", 0.22), ("fresh", 0.1), ("list", 0.1), ("other", 0.06)]
+    if two_params:
+        menu.append(("params", 0.12))
+    tot = sum(w for _, w in menu)
+    steps, cur, w_now = [["eval"] if sub.chance(0.5) else ["set", 0]], 0, 0
+    while len(steps) < length:
+        t = sub.uniform(0.0, tot)
+        for what, w in menu:
+            if t < w:
+                break
+            t -= w
+        if what == "set":
+            cur = sub.choice([j for j in range(nv) if j != cur] or [cur])
+            steps.append(["set", cur])
+        elif what in ("fresh", "list"):
+            steps.append([what, sub.randint(0, nv - 1)])
+        elif what == "blocks":
+            steps.append(["blocks", max(1, min(n, sub.choice([max(1, n // 6), 2, 3, 4, n // 2, n - 1])))])
+        elif what == "params":
+            w_now = 1 - w_now
+            steps.append(["params", w_now])
+        else:
+            steps.append([what])
+    if nv > 1 and not any(st[0] == "set" and i > 0 for i, st in enumerate(steps)):
+        steps.insert(1, ["set", 1])
+    return steps
+
+
+def session_case(sub, k, shape, stream, default_only=False, n=None, nv=None, steps=None, interp=False, shift=None,
+                 want_params2=None, name="m", **kw):
+    """a session on ONE model object around constructor k: the constructor itself, its offset model, the constructor
+    plus an offset model, or its generic inverse (solver-free constructors only).  Every vector of the session holds
+    valid inputs of the property's range (for both parameter sets when there are two)."""
+    kind = ALIASES.get(k, k)
+    if shape == "inv" and (kind in SOLVER_KINDS):
+        shape = "b"
+    slow = kind in SOLVER_KINDS or shape == "inv"
+    n = n or (sub.randint(4, 10) if slow else sub.randint(4, 24))
+    nv = nv or sub.randint(2, 3)
+    if shape == "inv":
+        info = {}
+        c = inversion_case(sub, kind, "plain", interp, stream, default_only=default_only, n=n * nv, info=info)
+        if c is None:
+            return None
+        ys = c["xs"]
+        vecs = [ys[j::nv] for j in range(nv)]
+        e, p, p2 = c["expr"], c["params"], None
+        if e[4] and info["unit"] == "d":
+            # the spline of the interpolated variant has knots every 0.01 um of the inverted force model: where the
+            # force changes by more than a quarter from one knot to the next (close to the contour length of a short
+            # tether) the interpolant is coarse by construction (see ASSUMPTIONS); such data goes to least squares
+            a = args_of(e[1], p)
+            for x in info["xs_in"]:
+                try:
+                    f0, f1 = plain_forward(kind, a, x), plain_forward(kind, a, x + SPLINE_DX)
+                except ZeroDivisionError:
+                    f0 = f1 = float("nan")
+                if not (math.isfinite(f0) and math.isfinite(f1) and abs(f1 - f0) <= 0.25 * abs(f0)):
+                    e = e[:4] + [False]
+                    break
+    else:
+        b = ["b", k, name]
+        unit = KINDS[kind][2]
+        e = {"b": b, "off": ["off", b], "add": ["add", b, ["b", "distance_offset" if unit == "f" else "force_offset", "o"]]}[shape]
+        p = draw_params(sub, e, default_only)
+        if shape == "off" and shift is not None:
+            p[p_offset_name(b)] = float(shift)
+        two = sub.chance(0.5) if want_params2 is None else want_params2
+        a = args_of(b, p)
+        lim = 0.8 * validity_limit(kind, a)
+        vecs_u = []
+        for _ in range(nv):
+            if two:  # a margin to the ends of the range: the same inputs have to be valid for the second parameter set
+                Fs = sorted(sub.loguniform(0.07, 0.7 * lim / 0.8) for _ in range(n))
+                vecs_u.append(Fs if unit == "f" else [curve_point(kind, F, a)[1] for F in Fs])
+            else:
+                vecs_u.append(base_inputs(sub, b, p, n))
+        p2 = None
+        if two:
+            for _ in range(4):
+                q = dict(p)
+                nm = sub.choice([x for x in p_names(b)])
+                q[nm] = p[nm] * (sub.uniform(0.95, 0.99) if sub.chance(0.5) else sub.uniform(1.01, 1.05))
+                if in_box(kind, args_of(b, q), [u for v in vecs_u for u in v]):
+                    p2 = q
+                    break
+        o = p[p_offset_name(b)] if shape == "off" else 0.0
+        vecs = [[u + o for u in v] for v in vecs_u]
+    steps = steps or session_script(sub, n, nv, p2 is not None, sub.randint(3, 8))
+    if p2 is None:
+        steps = [st for st in steps if st[0] != "params"] or [["eval"]]
+    c = {"stream": stream, "op": "session", "expr": e, "params": {k_: float(v) for k_, v in p.items()},
+         "params2": None if p2 is None else {k_: float(v) for k_, v in p2.items()},
+         "vecs": [[float(x) for x in v] for v in vecs], "steps": steps, "valid": True}
+    c.update(kw)
+    return c
+
+
+def session_small_scope(r):
+    """every constructor (and deprecated alias) at the default parameters through one fixed script that contains every
+    kind of query; its offset model and (solver-free constructors) its generic inverse of both flavours through a
+    shorter one"""
+    full = [["eval"], ["set", 1], ["eval"], ["blocks", 3], ["set", 2], ["fresh", 0], ["list", 1], ["params", 1],
+            ["set", 0], ["params", 0], ["blocks", 4], ["other"], ["set", 1]]
+    short = [["eval"], ["set", 1], ["blocks", 4], ["set", 0], ["fresh", 1]]
+    for k in SESSION_KINDS + sorted(ALIASES):
+        kind = ALIASES.get(k, k)
+        if k in ALIASES and kind not in SOLVER_KINDS:
+            continue  # the aliases forward to the same function; only the slow inversions are repeated through them
+        c = session_case(r.fork("full" + k), k, "b", "small-scope", default_only=True, n=6 if kind in SOLVER_KINDS else 10,
+                         nv=3, steps=full, want_params2=True)
+        if c is not None:
+            yield c
+    for k in SESSION_KINDS:
+        for sh in (-1.0, 0.05):
+            c = session_case(r.fork(f"off{k}{sh}"), k, "off", "small-scope", default_only=True, n=6, nv=2, steps=short,
+                             shift=sh, want_params2=False)
+            if c is not None:
+                yield c
+        if k in SOLVER_KINDS:
+            continue
+        for interp in (False, True):
+            c = session_case(r.fork(f"inv{k}{interp}"), k, "inv", "small-scope", default_only=True, n=6, nv=2,
+                             steps=short, interp=interp)
+            if c is not None:
+                yield c
+
+
+def session_random(r, count):
+    for i in range(count):
+        sub = r.fork(i)
+        k = sub.choice(SESSION_KINDS)
+        if sub.chance(0.08):
+            al = [a for a, t in ALIASES.items() if t == k]
+            k = al[0] if al else k
+        t, shape = sub.random(), SESSION_SHAPES[-1][0]
+        for nm, w in SESSION_SHAPES:
+            if t < w:
+                shape = nm
+                break
+            t -= w
+        c = session_case(sub, k, shape, "random", interp=sub.chance(0.5), name=sub.choice(["DNA", "m", "x1"]), subseed=i)
+        if c is not None:
+            yield c
 
 
 def cases(tier, rng):
     quick = tier == "quick"
     yield from corpus_cases()
     yield from small_scope(rng, quick)
+
+    # ---- sessions: sequences of queries to one model object (in-place updates, slices, repeated / changed parameters)
+    yield from session_small_scope(rng.fork("c12-session-small"))
+    yield from session_random(rng.fork("c12-session"), 150 if quick else 2500)
 
     # ---- (a) calc_cubic_root
     r = rng.fork("c12-cubic")
@@ -1495,9 +1886,21 @@ def extra_coverage(results):
     dropped = compared = 0
     solver_cases = 0
     inv_shapes, sessions = {}, {"sessions": 0, "with_two_different_temperatures": 0, "dna_models_observed": 0}
+    msess = {"sessions": 0, "queries": 0, "with_two_parameter_sets": 0, "by_query_kind": {}, "by_expression": {},
+             "through_scipy_solver": 0, "queries_after_in_place_overwrite_of_the_same_buffer": 0}
     for r in results:
         c = r["case"]
         kinds[c["op"]] = kinds.get(c["op"], 0) + 1
+        if c["op"] == "session":
+            msess["sessions"] += 1
+            msess["queries"] += len(c["steps"])
+            msess["with_two_parameter_sets"] += c.get("params2") is not None
+            msess["through_scipy_solver"] += uses_solver(c["expr"])
+            ek = c["expr"][0] if c["expr"][0] != "b" else base_kind(c["expr"])
+            msess["by_expression"][ek] = msess["by_expression"].get(ek, 0) + 1
+            for i, st in enumerate(c["steps"]):
+                msess["by_query_kind"][st[0]] = msess["by_query_kind"].get(st[0], 0) + 1
+                msess["queries_after_in_place_overwrite_of_the_same_buffer"] += st[0] == "set" and i > 0
         if c["op"] == "dnaseq":
             temps = [st["temp"] for st in c["steps"] if st["ctor"] in DNA_CTORS]
             sessions["sessions"] += 1
@@ -1553,6 +1956,7 @@ def extra_coverage(results):
         "cases_through_scipy_solver": solver_cases,
         "generic_inversions_by_shape": inv_shapes,
         "dna_sessions": sessions,
+        "model_sessions": msess,
         "exhaustive": False,
         "exhaustive_note": "the small-scope stream enumerates all ordered pairs of the 12 constructors (x equal/different names x bare/offset) completely at default parameters; parameter values and forces are sampled",
     }
